@@ -28,13 +28,13 @@ def lemma_need_mono(n: Node, a: int, b: int):
 contract(PROC, 'Procedure.__stack_pop', 'C09', types=T, rewrites=STK,
 	requires=['len(self.__stacks) >= 1'],
 	modifies=['self.__stacks'],
-	raises={'AssertionError': 'len(last(self.__stacks)) == 0'},
+	raises={'AssertionError': 'len(last(self.__stacks)) == 0'}, raise_unchanged=['AssertionError'],
 	ensures=['result == last(last(old(self.__stacks)))', 'self.__stacks == init(old(self.__stacks)) + [init(last(old(self.__stacks)))]'])
 
 contract(PROC, 'Procedure.__result', 'C09', types=T, rewrites=STK,
 	requires=['len(self.__stacks) >= 1'],
 	modifies=['self.__stacks'],
-	raises={'AssertionError': 'len(last(self.__stacks)) != 1'},
+	raises={'AssertionError': 'len(last(self.__stacks)) != 1'}, raise_unchanged=['AssertionError'],
 	ensures=[
 		# Top: processing a tree ends with exactly one result, which is returned
 		'result == last(old(self.__stacks))[0]', 'self.__stacks == init(old(self.__stacks)) + [init(last(old(self.__stacks)))]', 'len(last(self.__stacks)) == 0'])
@@ -53,7 +53,7 @@ contract(PROC, 'Procedure.__make_event', 'C09', types={**T, 'return': 'dict[str,
 			'assert counts <= len(self.__stack)\nevent[prop_key] = self.__stack[len(self.__stack) - counts:]\nself.__stacks[len(self.__stacks) - 1] = self.__stack[:len(self.__stack) - counts]',
 	},
 	lets={'T0': 'last(self.__stacks)'},
-	requires=['len(self.__stacks) >= 1', 'distinct_keys(node)'],
+	requires=['len(self.__stacks) >= 1'],
 	modifies=['self.__stacks'],
 	raises={'Errors.Logic': 'len(last(self.__stacks)) < need(node, len(keys(node)))'},
 	hints_entry=['lemma_need_mono(node, 0, len(keys(node)))'],
@@ -63,6 +63,7 @@ contract(PROC, 'Procedure.__make_event', 'C09', types={**T, 'return': 'dict[str,
 		'all(keys(node)[j] in result and ' + EVENT_OK.format(ev='result') + ' for j in range(len(keys(node))))',
 		# ... and exactly those results are consumed: nothing of an earlier sibling's results is touched
 		'last(self.__stacks) == T0[:len(T0) - need(node, len(keys(node)))]', 'init(self.__stacks) == init(old(self.__stacks))', 'len(self.__stacks) == len(old(self.__stacks))',
+		'0 <= need(node, len(keys(node)))', 'need(node, len(keys(node))) <= len(T0)',
 	],
 	loops={0: Loop(
 		invariant=[
@@ -75,9 +76,87 @@ contract(PROC, 'Procedure.__make_event', 'C09', types={**T, 'return': 'dict[str,
 		hints_head=['lemma_need_mono(node, len(keys(node)) - _i, len(keys(node)))', 'implies(_i < len(keys(node)), lemma_need_mono(node, len(keys(node)) - _i - 1, len(keys(node)) - _i))'])})
 
 
+CONSUMED = ['len(self.__stacks) == len(old(self.__stacks))', 'init(self.__stacks) == init(old(self.__stacks))']
+ENOUGH = ['0 <= need(node, len(keys(node)))', 'need(node, len(keys(node))) <= len(T0)']
+
+contract(PROC, 'Procedure.__emit', ['C09', 'C07'], types={**T, 'event': 'dict[str, EventVal]'},
+	rewrites={**STK, 'self.__emitter.emit(action, node=node, **event)': 'emit_call(self.__emitter, action, node, event)',
+		'len(e.args) > 0 and (not isinstance(e.args[0], Node))': 'exc_arg0_not_node(self.__emitter)', 'e.__class__(node)': 'Errors.Error(node)'},
+	lets={'T0': 'last(self.__stacks)'},
+	requires=['len(self.__stacks) >= 1'],
+	modifies=['self.__stacks'],
+	# Top (C07): whatever a handler raises leaves as an application error (InvalidSchema, the original Errors.Error, or Fatal)
+	raises={'Errors.Error': None},
+	ensures=CONSUMED + ENOUGH + ['last(self.__stacks) == T0[:len(T0) - need(node, len(keys(node)))]'])
+
+contract(PROC, 'Procedure.__run_action', 'C09', types={**T, 'return': 'None', 'result': 'Ret'},
+	rewrites=STK,
+	stmt_rewrites={'self.__put_log_action(node, handler_name, stacks=(before, consumed, len(self.__stack)), result=result)': 'pass'},
+	lets={'T0': 'last(self.__stacks)'},
+	requires=['len(self.__stacks) >= 1'],
+	modifies=['self.__stacks'],
+	raises={'Errors.Error': None},
+	ensures=CONSUMED + [
+		# Top: the node's children results are replaced by exactly one result; results below them (earlier siblings, outer nodes) are untouched
+		'len(last(self.__stacks)) == len(T0) - need(node, len(keys(node))) + 1',
+		'init(last(self.__stacks)) == T0[:len(T0) - need(node, len(keys(node)))]',
+	])
+
+contract(PROC, 'Procedure.__action', 'C09', types={**T, 'return': 'None'},
+	lets={'T0': 'last(self.__stacks)'},
+	requires=['len(self.__stacks) >= 1'],
+	modifies=['self.__stacks'],
+	raises={'Errors.Error': None},
+	ensures=CONSUMED + ['len(last(self.__stacks)) == len(T0) - need(node, len(keys(node))) + 1', 'init(last(self.__stacks)) == T0[:len(T0) - need(node, len(keys(node)))]'])
+
+contract(PROC, 'Procedure.__exec_impl', 'C09', types={**T, 'root': 'Node', 'flatted': 'list[Node]'},
+	rewrites={**STK, 'root.procedural()': 'flat(root)'},
+	requires=['len(self.__stacks) >= 1'],
+	modifies=['self.__stacks'],
+	raises={'Errors.Error': None},
+	ensures=CONSUMED,
+	loops={0: Loop(invariant=['len(self.__stacks) == len(old(self.__stacks))', 'init(self.__stacks) == init(old(self.__stacks))', '_seq == flat(root) + [root]', '0 <= _i', '_i <= len(_seq)'])})
+
+contract(PROC, 'Procedure.exec', 'C09', types={**T, 'root': 'Node'},
+	modifies=['self.__stacks'],
+	raises={'Errors.Error': None},
+	ensures=[
+		# Top: nested processing started from inside a handler does not disturb the outer run (the stack of stacks is restored on return)
+		'self.__stacks == old(self.__stacks)',
+	])
+
+
+TRUSTED_BASE = ['abstract Node interface: prop_keys() is a fixed duplicate-free list per class (closed check by evaluation), is-list / length of a property are functions of (node, key), stable during one event',
+	'Middleware.emit runs the handler and may raise anything; handlers touch the Procedure only through exec()', 'reading of the pop-and-reverse comprehension as a slice (stmt rewrite, cross-checked by the monitor)']
+ASSUMPTIONS = ['the whole-tree statement (processing FLAT(n) ++ [n] leaves exactly R(n)) follows from the per-node contracts by induction over the tree; that induction (T09) is not machine-checked here, the bounded monitor validates it on real trees',
+	'Node.procedural (flattening) and the node classes\' property getters are validated by the bounded monitor only']
+
+
+def closed_prop_keys():
+	"""Closed obligation by evaluation: no node class declares the same expandable property twice (justifies the axiom on keys())."""
+	import inspect, os, sys
+	repo = os.environ.get('PYVC_REPO', '/repo')
+	if repo not in sys.path:
+		sys.path.insert(0, repo)
+	import rogw.tranp.syntax.node.definition as defs
+	from rogw.tranp.syntax.node.node import Node
+	bad, n = [], 0
+	for name, cls in inspect.getmembers(defs, inspect.isclass):
+		if issubclass(cls, Node):
+			n += 1
+			ks = cls.prop_keys()
+			if len(ks) != len(set(ks)):
+				bad.append((name, ks))
+	return n, bad
+
+
 def extra_checks(tier, seed, active_known):
 	from pyvc.driver import Extra
 	from twins import procedure_twin
+	ncls, bad = closed_prop_keys()
+	closed = Extra(name='prop_keys() of every node class is duplicate-free', kind='closed', ok=not bad, cases=ncls, exhaustive=True, detail=f'{ncls} node classes, duplicates: {bad[:3]}')
+	if bad:
+		closed.violation = {'what': f'node class {bad[0][0]} declares a property twice: {bad[0][1]} (its results would be popped twice)', 'function': 'rogw/tranp/syntax/node/definition', 'inputs': {'class': bad[0][0], 'prop_keys': bad[0][1]}, 'clause': 'distinct prop_keys'}
 	visited, classes, fails = procedure_twin.run(tier, seed)
 	x = Extra(name='identity-valued Procedure over real modules: event(n)[k] == results(getattr(n, k)), one final result, nested exec', kind='bounded', ok=not fails, cases=visited,
 		bound='6 snippets (is-not comparisons, parametrised bases, comprehensions, try/lambda/closures, enums) + fixture_reflections.py, example/json.py, the stub library (thorough: + fixture_py2cpp.py)',
@@ -86,4 +165,4 @@ def extra_checks(tier, seed, active_known):
 	if fails:
 		x.violation = {'what': fails[0]['what'], 'function': 'rogw/tranp/semantics/procedure.py:Procedure / rogw/tranp/syntax/node/node.py:Node.procedural', 'inputs': fails[0], 'clause': 'event(n)[k] == results(getattr(n, k))'}
 		x.finding_key = 'procedure-monitor'
-	return [x]
+	return [closed, x]
